@@ -258,44 +258,7 @@ func runC11(p *eng.Prog, r *eng.Report, tier string) {
 		}
 	}
 
-	// ---- C11.5 splitString ----------------------------------------------------------------------------
-	sp := c.fn("C11.5", "jid", "splitString")
-	if sp != nil {
-		g := sp.Graph()
-		var slash, at *ast.CallExpr
-		for _, cl := range sp.Calls("strings.Index") {
-			if s, _ := sp.ConstStr(cl.Args[1]); s == "/" {
-				slash = cl
-			} else if s == "@" {
-				at = cl
-			}
-		}
-		if slash == nil || at == nil {
-			c.r.Check("C11.5", sp, "separators", "Index of \"/\" and of \"@\"", sp.Pos(), false, "calls not found")
-		} else {
-			ap, _ := g.Where(at)
-			isSlash := func(q eng.Point, n ast.Node) bool { return containsNode(n, slash) }
-			c.r.Check("C11.5", sp, "'/' before '@'", "O: the resourcepart is split off at the first '/' before the first '@' is looked for", at.Pos(), g.MustPassBefore(g.Entry(), ap, isSlash, nil), "'@' searched before '/'")
-			// on the found edge the string is truncated before '@' is searched
-			slp, _ := g.Where(slash)
-			sn := sp.Norm(slash, &slp)
-			for _, ce := range g.EdgesMatching("!eq(" + sn + ",-1)") {
-				trunc := func(q eng.Point, n ast.Node) bool {
-					as, ok := n.(*ast.AssignStmt)
-					if !ok || len(as.Lhs) != 1 {
-						return false
-					}
-					v := rootLocal(sp, as.Lhs[0])
-					sl, isSl := ast.Unparen(as.Rhs[0]).(*ast.SliceExpr)
-					return v != nil && v == sp.Sig().Params().At(0) && isSl && sl.Low == nil && sl.High != nil
-				}
-				c.r.Check("C11.5", sp, "truncation before '@'", "O: when a '/' exists the '@' is searched only in the part before it", at.Pos(), g.MustPassBefore(g.EdgeTarget(ce.E), ap, trunc, nil), "'@' searched in the untruncated string")
-			}
-			// the '@' search looks at the (possibly truncated) input parameter
-			c.r.Check("C11.5", sp, "'@' searched in the input", "P", at.Pos(), rootLocal(sp, at.Args[0]) == sp.Sig().Params().At(0), "")
-		}
-		c09IndexID(c, "C11.5", sp, "jid.Parse")
-	}
+	c11SplitString(c, "C11.5")
 
 	// ---- C11.6 accessors ---------------------------------------------------------------------------------
 	L, D := "recv.locallen", "recv.domainlen"
@@ -1128,4 +1091,55 @@ func c11CodecsVerbatim(c *cx, id string) {
 		c.r.Check(id, f, "address text not rewritten by the codec", "E-taint: the XML codecs of JID pass the text to Parse / from String unchanged", f.Pos(), bad == "", bad+": an address with leading or trailing white space (valid in a resourcepart) decodes to a different address")
 	}
 	c.r.Floor(id, "XML codecs of JID", n, 4)
+}
+
+// c11SplitString (C11.5 / C13.33): RFC 7622 section 3.2: the resourcepart is
+// split off at the first '/' before the first '@' is looked for, and the '@'
+// is searched only in what remains (an '@' in a resourcepart is not a
+// separator). Every address attribute of a stanza goes through this function.
+func c11SplitString(c *cx, id string) {
+	sp := c.fn(id, "jid", "splitString")
+	if sp != nil {
+		g := sp.Graph()
+		var slash, at *ast.CallExpr
+		for _, callee := range []string{"strings.Index", "strings.IndexByte", "strings.IndexRune"} {
+			for _, cl := range sp.Calls(callee) {
+				sep, _ := sp.ConstStr(cl.Args[1])
+				if v, ok := sp.ConstInt(cl.Args[1]); ok && sep == "" {
+					sep = string(rune(v))
+				}
+				if sep == "/" {
+					slash = cl
+				} else if sep == "@" {
+					at = cl
+				}
+			}
+		}
+		if slash == nil || at == nil {
+			c.r.Check(id, sp, "separators", "Index of \"/\" and of \"@\"", sp.Pos(), false, "calls not found")
+		} else {
+			ap, _ := g.Where(at)
+			isSlash := func(q eng.Point, n ast.Node) bool { return containsNode(n, slash) }
+			c.r.Check(id, sp, "'/' before '@'", "O: the resourcepart is split off at the first '/' before the first '@' is looked for", at.Pos(), g.MustPassBefore(g.Entry(), ap, isSlash, nil), "'@' searched before '/'")
+			// on the found edge the string is truncated before '@' is searched
+			slp, _ := g.Where(slash)
+			sn := sp.Norm(slash, &slp)
+			for _, ce := range g.EdgesMatching("!eq(" + sn + ",-1)") {
+				trunc := func(q eng.Point, n ast.Node) bool {
+					as, ok := n.(*ast.AssignStmt)
+					if !ok || len(as.Lhs) != 1 {
+						return false
+					}
+					v := rootLocal(sp, as.Lhs[0])
+					sl, isSl := ast.Unparen(as.Rhs[0]).(*ast.SliceExpr)
+					return v != nil && v == sp.Sig().Params().At(0) && isSl && sl.Low == nil && sl.High != nil
+				}
+				c.r.Check(id, sp, "truncation before '@'", "O: when a '/' exists the '@' is searched only in the part before it", at.Pos(), g.MustPassBefore(g.EdgeTarget(ce.E), ap, trunc, nil), "'@' searched in the untruncated string")
+			}
+			// the '@' search looks at the (possibly truncated) input parameter
+			c.r.Check(id, sp, "'@' searched in the input", "P", at.Pos(), rootLocal(sp, at.Args[0]) == sp.Sig().Params().At(0), "")
+		}
+		c09IndexID(c, id, sp, "jid.Parse")
+	}
+
 }
